@@ -20,6 +20,11 @@ for d in sorted(glob.glob(V + "/seeded/*/")):
     if r.returncode != 0:
         res[name] = {"error": "patch does not apply: " + r.stderr[:200]}; continue
     det = {}
+    # the evidence files describe the UNCHANGED tree: keep them aside while a seeded tree is being checked
+    saved = {}
+    for p in props_of(name):
+        ev = os.path.join(V, "evidence", p + ".json")
+        if os.path.exists(ev): saved[ev] = open(ev).read()
     try:
         for p in props_of(name):
             out = subprocess.run(["python3", "bin/check", p], cwd=V, capture_output=True, text=True, timeout=1500)
@@ -35,6 +40,8 @@ for d in sorted(glob.glob(V + "/seeded/*/")):
             det[p] = {"exit": out.returncode, "violation_lines": len(viol), "with_failing_input": len(real), "first": first}
     finally:
         subprocess.run(["git", "-C", "/repo", "checkout", "--", "."])
+        for ev, text in saved.items():
+            open(ev, "w").write(text)
     caught = any(v["exit"] == 1 for v in det.values())
     res[name] = {"caught": caught, "checks": det}
     notes = ""
